@@ -53,7 +53,7 @@ static struct spki_table table;
 static struct rtr_bgpsec *data;
 
 /* ---- capture of what the library hashes ---------------------------------------------- */
-#define MAXCAP 64
+#define MAXCAP 512
 static uint8_t *cap[MAXCAP];
 static size_t cap_len[MAXCAP];
 static int ncap;
